@@ -41,6 +41,8 @@ inductive UserRep where
   | dropTop (k : Bytes)
   /-- `if a.Key == k { return slog.Attr{} }` -/
   | dropAny (k : Bytes)
+  /-- a key-renaming replacer: `a.Key = p + a.Key; return a` -/
+  | addPrefix (p : Bytes)
   deriving Repr, Inhabited
 
 def redactedVal : Bytes := "***REDACTED***".toList
@@ -57,6 +59,7 @@ def replaceAttr (u : UserRep) (groups : List Bytes) (k v : Bytes) : Option (Byte
     | .none => some (k, v)
     | .dropTop d => if groups.isEmpty && k == d then Option.none else some (k, v)
     | .dropAny d => if k == d then Option.none else some (k, v)
+    | .addPrefix p => some (p ++ k, v)
 
 /-- one `key=value` of the output: the key path (enclosing groups, then the key) and the value text -/
 abbrev Pair := List Bytes × Bytes
